@@ -75,7 +75,11 @@ HeaderCombos == {<<ln, lb, f, rem>> : ln \in 3..8, lb \in 1..4, f \in {2, 4, 8, 
 HeaderMutation(h) == "header:" \o ToString(h[1]) \o "," \o ToString(2 ^ h[2]) \o "," \o ToString(h[3]) \o "," \o ToString(h[4]) \o ","
                      \o ToString(FriM!NumLayers(2 ^ (h[1] + h[2]), h[3], 2 ^ h[2], h[4]))
 HeaderMutations == {HeaderMutation(h) : h \in HeaderCombos}
-MutationsOf(f) == IF f.name = "commitments" THEN {[field |-> f.name, m |-> x] : x \in BlobMutations \cup HeaderMutations} ELSE
+\* another field extension claimed, with every component made of extension-field elements re-sized to that extension's element size
+\* (all length prefixes consistent): the claim reaches the verifier's dispatch on the extension instead of failing at a length check
+ExtensionMutations == {"reextend:" \o ToString(d) : d \in 1..3}
+MutationsOf(f) == IF f.name = "opt.extension" THEN {[field |-> f.name, m |-> x] : x \in ByteSet \cup ExtensionMutations} ELSE
+                  IF f.name = "commitments" THEN {[field |-> f.name, m |-> x] : x \in BlobMutations \cup HeaderMutations} ELSE
                   IF f.name = "fri.num_layers" THEN {[field |-> f.name, m |-> x] : x \in ByteSet \cup LayerMutations} ELSE
                   IF f.inner = "lagframe" THEN {[field |-> f.name, m |-> x] : x \in BlobMutations \cup LagMutations} ELSE
                   IF f.inner = "paths" THEN {[field |-> f.name, m |-> x] : x \in BlobMutations \cup PathsMutations} ELSE
